@@ -106,7 +106,7 @@ class ProdImpedance(Contract):
         dpoverall, pumping, dpprod, dpres, dpbuoy = r
         n = Len(s.vprod)
         return {
-            "length": Len(pumping) == n,
+            "length": And(Len(pumping) == n, Len(dpoverall) == n, Len(dpprod) == n, Len(dpbuoy) == n),
             "pumping_power_nonnegative": ForAll(0, n, lambda i: pumping[i] >= 0.0),
             "overall_is_sum_of_drops": ForAll(0, n, lambda i: dpoverall[i] == dpres + dpprod[i] + dpbuoy[i]),
         }
@@ -128,7 +128,7 @@ class InjImpedance(Contract):
         newdp, pumping, dpinj = r
         n = Len(s.vinj)
         return {
-            "length": Len(pumping) == n,
+            "length": And(Len(pumping) == n, Len(newdp) == n, Len(dpinj) == n),
             "pumping_power_nonnegative": ForAll(0, n, lambda i: pumping[i] >= 0.0),
             "overall_adds_injection_drop": ForAll(0, n, lambda i: newdp[i] == s.DPOverall[i] + dpinj[i]),
         }
@@ -158,6 +158,12 @@ class ProdIndexes(Contract):
     uninterpreted = {"geophires_x/GeoPHIRESUtils.py::vapor_pressure_water_kPa": ("vapor_pressure_water_kPa", _vp_facts)}
     assumptions = ("vapor_pressure_water_kPa is an uninterpreted function of temperature with result > 0 (A3)",)
 
+    def result_at_call(self, env):
+        pumped = env["productionwellpumping"]
+        if pumped is True:
+            return (ListOf("real"), NdOf("real"), NdOf("real"), Real)
+        return (ListOf("real"), ListOf("real"), ListOf("real"), ListOf("real"))
+
     def configs(self):
         return [("pumped", {"productionwellpumping": True}), ("selfflowing", {"productionwellpumping": False})]
 
@@ -180,7 +186,7 @@ class ProdIndexes(Contract):
         pumping, pumpingprod, dpprod, pwellhead = r
         n = Len(s.vprod_m)
         return {
-            "length": Len(pumping) == n,
+            "length": And(Len(pumping) == n, Len(pumpingprod) == n),
             "pumping_power_nonnegative": ForAll(0, n, lambda i: pumping[i] >= 0.0),
             "production_pumping_nonnegative": ForAll(0, n, lambda i: pumpingprod[i] >= 0.0),
             "pumped_total_is_production_power": Implies(s.productionwellpumping,
@@ -201,6 +207,10 @@ class InjIndexes(Contract):
     result = None
     uninterpreted = {"geophires_x/GeoPHIRESUtils.py::vapor_pressure_water_kPa": ("vapor_pressure_water_kPa", _vp_facts)}
     assumptions = ProdIndexes.assumptions
+
+    def result_at_call(self, env):
+        pumped = env["productionwellpumping"]
+        return (NdOf("real"), ListOf("real"), Real, Real if pumped is True else ListOf("real"))
 
     def configs(self):
         return [("pumped", {"productionwellpumping": True}), ("selfflowing", {"productionwellpumping": False})]
